@@ -15,6 +15,7 @@ import (
 	"encoding/json"
 	"fmt"
 	"strings"
+	"sync"
 	"time"
 
 	"go.lstv.dev/util/date"
@@ -480,6 +481,57 @@ func probe(a Arg) (string, string) {
 	return "", ""
 }
 
+// ---------------------------------------------------------------- concurrent first use (supplement)
+type ConcArg struct {
+	Package string `json:"package"`
+	Config  int    `json:"config,omitempty"`
+	Call    string `json:"call"`
+}
+
+// probeConcurrentFirst: the library is put back to its initial state and the call is made from 8 goroutines released
+// together (state built lazily on first use must be safe to build concurrently); every outcome must be the outcome the call
+// has as the first call of a fresh process. A free-running supplement like the race pass of C19: 12 attempts per execution,
+// not an exhaustive exploration of the interleavings.
+func probeConcurrentFirst(a ConcArg) (string, string) {
+	if mc.LibReset == nil {
+		return "", ""
+	}
+	cs := alphabets[a.Package]()
+	c := find(cs, a.Call)
+	if c == nil {
+		return "unknown_call", a.Call
+	}
+	arg := Arg{Package: a.Package, Config: a.Config, Second: a.Call}
+	reset(a.Package)
+	setup(arg)
+	alone := run(c.Fn)
+	for attempt := 0; attempt < 12; attempt++ {
+		reset(a.Package)
+		setup(arg)
+		const g = 8
+		outs := make([]string, g)
+		start := make(chan struct{})
+		var wg sync.WaitGroup
+		for i := 0; i < g; i++ {
+			i := i
+			wg.Add(1)
+			go func() {
+				defer wg.Done()
+				<-start
+				outs[i] = run(c.Fn)
+			}()
+		}
+		close(start)
+		wg.Wait()
+		for _, o := range outs {
+			if o != alone {
+				return "concurrent_first_use_differs", fmt.Sprintf("%s.%s called from %d goroutines at once as the first use of a fresh process gave %s; alone it gives %s", a.Package, a.Call, g, o, alone)
+			}
+		}
+	}
+	return "", ""
+}
+
 // Phase adds the history-independence exploration for the given packages; judged second calls are those whose tag is listed
 // (nil = all). It is a serial phase: it runs in the first pass (before anything else has touched the library) and again in
 // place.
@@ -533,5 +585,34 @@ func Phase(r *mc.Run, tags map[string][]string) {
 			})
 			libdefaults.All()
 		})
+	pc := mc.NewProbe(r, "concurrent_first_use", func(a ConcArg) { setup(Arg{Package: a.Package, Config: a.Config}) }, probeConcurrentFirst)
+	pc.SelfReset = true
+	if r.FirstPass() || r.Replaying() {
+		r.Phase(fmt.Sprintf("serial: supplement (free-running, not exhaustive): every judged entry point of %s called from 8 goroutines at once as the first use of a fresh process, 12 attempts each", strings.Join(pkgs, ", ")), "12 attempts per call", func() {
+			if mc.LibReset == nil {
+				return
+			}
+			r.Serial(func(w *mc.W) {
+				for _, pkg := range pkgs {
+					want := map[string]bool{}
+					for _, t := range tags[pkg] {
+						want[t] = true
+					}
+					for _, c := range alphabets[pkg]() {
+						if len(want) > 0 && !want[c.Tag] {
+							continue
+						}
+						if w.Expired() {
+							return
+						}
+						w.Point()
+						pc.Do(w, ConcArg{Package: pkg, Call: c.Name})
+					}
+				}
+				w.Outcome("concurrent first use")
+			})
+			libdefaults.All()
+		})
+	}
 	r.Sample("history_independence_from_initial_state", Arg{Package: "roman", First: "DefaultFormatter(nil,14,64)", Second: "DefaultFormatter(nil,2014,0)"})
 }
